@@ -1025,6 +1025,7 @@ func main() {
 		vs := redisemu.VerifNewStore("")
 		do := func(cl *redisemu.VerifClient, a ...string) string { r, _ := cl.Dispatch(toArgv(a)); return string(r) }
 		size := 256 * 1024
+		var largeReads int64
 		ones, zeros := strings.Repeat("\xff", size), strings.Repeat("\x00", size)
 		w := vs.NewClient()
 		do(w, "SET", "big", zeros)
@@ -1078,7 +1079,7 @@ func main() {
 						badMu.Unlock()
 						return
 					}
-					stats["large_value_reads"]++
+					atomic.AddInt64(&largeReads, 1)
 				}
 			}(rd)
 		}
@@ -1099,6 +1100,7 @@ func main() {
 		wg.Wait()
 		w.Close()
 		stats["large_value_rounds"]++
+		stats["large_value_reads"] += int(atomic.SwapInt64(&largeReads, 0))
 		if bad != "" && !strings.Contains(bad, "neither all") {
 			fail("large-value", round, []string{"writer: SETRANGE big 0 <256 KiB of 0xff> / SET big <256 KiB of 0x00> / ...", "readers: BITCOUNT big, BITPOS big, GET big"}, bad)
 		}
